@@ -495,6 +495,7 @@ Section ObjW.
     destruct (push_to_block2 E p o c) as [[o1|o1] c1]; cbn [fst res_obj] in *; [|split; assumption].
     destruct (a_close_obj p); [|split; assumption].
     destruct (r_state o1); try (split; assumption).
+    destruct (r_writer o1); [|split; assumption].
     destruct (st_error maxblk o1 true c1 (st_bnd _ _ S1)) as [S2 H2]. destruct (error o1 true c1) as [o2 c2].
     cbn [fst res_obj] in *. split; [exact S2|rewrite H2; exact H1].
   Qed.
